@@ -7,7 +7,8 @@
 
   * `_convert(mapped_dict, mapping)`:
       `out_dict = deepcopy(mapped_dict)`;
-      loop 1 over `mapping.items()`: `Constant` → `out[k] = v()`; key `f._mapper` → content is read from the
+      loop 1 over `mapping.items()`: `Constant` → `out[k] = deepcopy(v())` (a copy: values only, no sharing with
+      the mapping); key `f._mapper` → content is read from the
       *input* `mapped_dict` (not from `out`), `None`/absent is skipped, a list is converted element-wise, anything
       else is converted as a document, the result is stored at `out[f]`; `FunctionCall` → arguments are read
       from `out` (`v.args`, or `[k]` when `args` is empty/None), `out[k] = func(*args)`;
@@ -15,8 +16,9 @@
       loop 3: `Deleted` → `del out[k]` when present.
     On a non-dict content (reachable through `._mapper` entries) the exceptions Python raises are modelled
     with their class (`TypeError` / `AttributeError`).
-  * `convert_dict(d, ms)`: `start = d.get("version", 1)`; `for m in ms[start-1:]` (Python slice semantics, also for
-    `start ≤ 0`): `x = _convert(x, m)`; `x["version"] = x.get("version", 0) + 1`.
+  * `convert_dict(d, ms)`: `start = d.get("version", 1)`; `for offset, m in enumerate(ms[start-1:])` (Python slice
+    semantics, also for `start ≤ 0`): `x = _convert(x, m)`; `x["version"] = start + offset + 1` — the version is
+    counted by `convert_dict` itself, whatever the mapping did to the `version` key (typedpy commit f017e49).
 
   Documents are JSON values; objects are association lists in Python's insertion order (`set` replaces in
   place or appends, `erase` removes), so equality of model results is at least as fine as Python's `==`.
@@ -298,31 +300,29 @@ def startVersion (kvs : Obj) : R Int :=
 def pySliceFrom {α} (i : Int) (l : List α) : List α :=
   if 0 ≤ i then l.drop i.toNat else l.drop (l.length - (-i).toNat)
 
-/-- `mapped_dict["version"] = mapped_dict.get("version", 0) + 1` -/
-def bump (j : Json) : R Json :=
+/-- `mapped_dict["version"] = start_version + offset + 1` (`v` = the value assigned) -/
+def setVersion (v : Int) (j : Json) : R Json :=
   match j with
-  | .obj kvs =>
-    match get "version" kvs with
-    | none => .ok (.obj (set "version" (.int 1) kvs))
-    | some v => match versionInt v with
-      | some i => .ok (.obj (set "version" (.int (i + 1)) kvs))
-      | none => .error .typeErr
-  | _ => .error .attrErr
+  | .obj kvs => .ok (.obj (set "version" (.int v) kvs))
+  | _ => .error .typeErr
 
-/-- the loop of `convert_dict` over the selected mappings -/
-def runSteps : List Mapping → Json → R Json
-  | [], d => .ok d
-  | m :: ms, d => bindE (convert m d) fun d' => bindE (bump d') fun d'' => runSteps ms d''
+/-- the loop of `convert_dict` over the selected mappings; `v` = version of the document the next mapping is
+    applied to (`start_version + offset`) -/
+def runSteps : List Mapping → Int → Json → R Json
+  | [], _, d => .ok d
+  | m :: ms, v, d =>
+    bindE (convert m d) fun d' => bindE (setVersion (v + 1) d') fun d'' => runSteps ms (v + 1) d''
 
 /-- `convert_dict(the_dict, versions_mapping)` -/
 def convertDict (d : Json) (ms : List Mapping) : R Json :=
   match d with
-  | .obj kvs => bindE (startVersion kvs) fun v => runSteps (pySliceFrom (v - 1) ms) d
+  | .obj kvs => bindE (startVersion kvs) fun v => runSteps (pySliceFrom (v - 1) ms) v d
   | _ => .error .attrErr
 
 /-- Aeneas-style view: the result together with the post-states of both arguments.  `convert_dict` works on
-    `copy.deepcopy(the_dict)` and `_convert` on `copy.deepcopy(mapped_dict)`; no statement writes through
-    `the_dict`, a mapping, a `Constant` or a `FunctionCall`, so the post-states are the arguments. -/
+    `copy.deepcopy(the_dict)`, `_convert` on `copy.deepcopy(mapped_dict)` and a `Constant` hands out
+    `copy.deepcopy` of its value; no statement writes through `the_dict`, a mapping, a `Constant` or a
+    `FunctionCall`, so the post-states are the arguments. -/
 def convertDictSt (d : Json) (ms : List Mapping) : R Json × Json × List Mapping :=
   (convertDict d ms, d, ms)
 
@@ -335,8 +335,8 @@ def versionedInitKw (ms : Option (List Mapping)) (kw : Obj) : Obj :=
 
 /-- prologue of `deserialize_structure_internal` for `issubclass(cls, Versioned)`; `rest` is the remainder of
     deserialization (a function of `input_dict` for a fixed class and fixed flags).
-    `getattr(cls, "_versions_mapping")` has no default there: a class without the attribute raises
-    AttributeError. -/
+    `getattr(cls, "_versions_mapping", None)`: a class without the attribute (`none`) behaves like one with the
+    empty history — falsy, no conversion. -/
 def deserVersioned {α} (rest : Json → α) (ms : Option (List Mapping)) (d : Json) : R α :=
   match d with
   | .obj kvs =>
@@ -344,7 +344,7 @@ def deserVersioned {α} (rest : Json → α) (ms : Option (List Mapping)) (d : J
     | none => .error .typeErr
     | some _ =>
       match ms with
-      | none => .error .attrErr
+      | none => .ok (rest d)
       | some [] => .ok (rest d)
       | some (m :: r) => bindE (convertDict d (m :: r)) fun d' => .ok (rest d')
   | _ => .error .typeErr
